@@ -144,6 +144,10 @@ class RealBuf:
     else:
       raise ValueError(wrap)
     self.nshards = 1 if wrap == 'n' else D
+    # one dispatch + one transfer per observation of the unwrapped buffer: [size(), ip, sp, data...]
+    self._packed = jax.jit(lambda st: jnp.concatenate([
+        jnp.stack([jnp.asarray(q.size(st), jnp.int32), st.insert_position, st.sample_position]),
+        st.data.reshape(-1)]))
 
     def draw(key, sp, ip):                  # lines 277-283 of replay_buffers.py
       _, sk = jax.random.split(key)
@@ -194,6 +198,13 @@ class RealBuf:
     """the indices `UniformSamplingQueue.sample_internal` is going to draw, shard-major"""
     idx = np.asarray(self._draw(state.key, state.sample_position, state.insert_position))
     return [int(i) for i in idx.reshape(-1)]
+
+  def observe_size(self, state):
+    """(shards, size()) — the real `size` of the (wrapped) buffer and the raw state fields"""
+    if self.cfg['wrap'] == 'n':
+      a = np.asarray(self._packed(state))
+      return [(int(a[1]), int(a[2]), a[3:].reshape(self.cfg['cap'], self.cfg['w']))], int(a[0])
+    return self.observe(state), self.size(state)
 
   def observe(self, state):
     data, ip, sp = self.jax.device_get((state.data, state.insert_position, state.sample_position))
@@ -257,9 +268,11 @@ def run_history(cfg, ops, size_every=1, check_spec=True):
                             'different batches for the same state', step=n)
       state = state_new
     stats['outcomes'][outcome] += 1
-    shards = rb_.observe(state)
-    measure = size_every and ((n + 1) % size_every == 0 or n == len(ops) - 1)
-    size = rb_.size(state) if measure else None
+    measure = bool(size_every and ((n + 1) % size_every == 0)) or n == len(ops) - 1
+    if measure:
+      shards, size = rb_.observe_size(state)
+    else:
+      shards, size = rb_.observe(state), None
     out_tokens.append(node_tokens(outcome, rb_.host(), size, batch, shards))
     out_idx.append(idx)
     # ---- the property, evaluated on the implementation
@@ -472,8 +485,7 @@ def real_exhaustive(cfg, L, pre=(), deadline=None):
   def visit(state, host, spec, lbl, ph, code, depth, path):
     outcome, new, batch, rows, lbl2 = apply(state, host, spec, lbl, code)
     host2 = int(q._size)
-    shards = rb_.observe(new)
-    size = rb_.size(new)
+    shards, size = rb_.observe_size(new)
     ph2 = _mix(_mix(ph, 777), code)
     h = ph2
     for t in node_tokens(outcome, host2, size, batch, shards):
@@ -560,10 +572,11 @@ def exhaustive_plan(ctx):
   caps = range(1, 6) if thorough else range(1, 5)
   Bs = range(1, 5) if thorough else range(1, 4)
   L = 7 if thorough else 5
+  big = []                                # the largest tries go last (see the soft deadline in correspond)
   for cap in caps:
     for B in Bs:
       for cyc in (0, 1):
-        plan.append((dict(kind='q', wrap='n', cap=cap, B=B, cyc=cyc, D=1, w=1), L))
+        (big if cap >= 5 else plan).append((dict(kind='q', wrap='n', cap=cap, B=B, cyc=cyc, D=1, w=1), L))
   # pytree records, plain
   plan.append((dict(kind='q', wrap='n', cap=3, B=2, cyc=0, D=1, w=3), 5 if thorough else 4))
   plan.append((dict(kind='q', wrap='n', cap=2, B=1, cyc=1, D=1, w=3), 5 if thorough else 4))
@@ -581,7 +594,7 @@ def exhaustive_plan(ctx):
       for cyc in (0, 1):
         plan.append((dict(kind='q', wrap='pjit', cap=2, B=1 + (D + cyc) % 2, cyc=cyc, D=D, w=1), 4))
     plan.append((dict(kind='q', wrap='pmap', cap=2, B=1, cyc=0, D=2, w=1), 2))
-  return plan
+  return plan + big
 
 
 # ----------------------------------------------------------------------------- F7 probe
@@ -676,8 +689,8 @@ def correspond(ctx):
   evaluations += 1
 
   # (a) random histories ---------------------------------------------------------------------------
-  n_cfg = ctx.budget(30, 90)
-  per_cfg = ctx.budget(10, 14)
+  n_cfg = ctx.budget(24, 90)
+  per_cfg = ctx.budget(12, 14)
   length = 40
   cases = []
   wraps = ['n', 'n', 'n', 'pjit', 'pjit', 'pmap']
@@ -722,10 +735,8 @@ def correspond(ctx):
 
   # (b) exhaustive histories ---------------------------------------------------------------------------------
   plan = exhaustive_plan(ctx)
-  lean_out = C.run_driver(DRIVER, [exh_line(cfg, L) for cfg, L in plan if cfg['wrap'] != 'pmap'])
-  lean_iter = iter(lean_out)
-  exh_nodes, exh_cfgs = 0, 0
-  deadline = time.time() + ctx.budget(100, 1000)
+  exh_nodes, exh_cfgs, reduced, walked = 0, 0, [], []
+  soft_deadline = time.time() + ctx.budget(80, 800)
   for cfg, L in plan:
     if cfg['wrap'] == 'pmap':
       # explicit leaf histories (size measured on the last operation only)
@@ -747,17 +758,26 @@ def correspond(ctx):
       exh_nodes += sum((cfg['cap'] + 1) ** l for l in range(1, L + 1))
       exh_cfgs += 1
       continue
-    want = next(lean_iter)
-    if time.time() > deadline:
-      raise RuntimeError('exhaustive walk exceeded its time budget (machine too slow?)')
+    if time.time() > soft_deadline:          # slow machine: shorten the remaining walks, and say so
+      L2 = min(L, 4 if cfg['wrap'] != 'n' else 5)
+      if L2 < L:
+        reduced.append(dict(cfg=cfg, planned=L, walked=L2))
+        L = L2
     cnt, dig, fail = real_exhaustive(cfg, L)
+    walked.append((cfg, L, cnt, dig))
     exh_nodes += cnt
     exh_cfgs += 1
     if fail and len(spec_failures) < 4:
       ops = codes_to_ops(cfg, fail['codes'])
       spec_failures.append(spec_failure_record(cfg, ops, dict(what=fail['what'], step=len(ops) - 1)))
+  lean_out = C.run_driver(DRIVER, [exh_line(cfg, L) for cfg, L, _, _ in walked])
+  if len(lean_out) != len(walked):
+    raise RuntimeError('driver returned a wrong number of exhaustive digests')
+  for (cfg, L, cnt, dig), want in zip(walked, lean_out):
     if want != f'{cnt} {dig}' and len(disagreements) < 5:
       disagreements.append(localise(cfg, L))
+  if reduced:
+    ctx.notes.append(f'exhaustive walk shortened for {len(reduced)} configurations (time budget)')
   evaluations += exh_nodes
   t_exh = time.time() - t_start - t_random
   # model and implementation disagree but no history contradicted the spec yet: look for one now
@@ -794,6 +814,7 @@ def correspond(ctx):
                  exhaustive_configs=exh_cfgs, exhaustive_nodes=exh_nodes,
                  exhaustive_plan=[dict(wrap=c['wrap'], cap=c['cap'], B=c['B'], cyc=c['cyc'], D=c['D'], w=c['w'], L=L)
                                   for c, L in plan][:12] + ['...'],
+                 exhaustive_reduced=reduced[:20],
                  seconds=dict(random=round(t_random, 1), exhaustive=round(t_exh, 1)),
                  devices=4))
 
